@@ -93,6 +93,87 @@ example :
     total (.struct (Fields.ofList exSchema)) false [] = true ∧ exSchema.all coveredF = true :=
   ⟨by decide +kernel, by decide +kernel, by decide +kernel, by decide +kernel, by decide, by decide, by decide, by decide, by decide⟩
 
+/-! ### capacity errors (outside `blameDT`: the mapping is defined) are reported by the builder that owns the counter -/
+
+def isFlatOwner : B → Bool
+  | .bytes _ _ _ _ _ | .bytesView _ _ _ _ _ | .dictionary _ _ _ _ => true
+  | _ => false
+
+def isScalarCall : SVal → Bool
+  | .bool _ | .int _ _ | .f32 _ | .f64 _ | .char _ | .str _ | .unitStruct _ | .bytes _ => true
+  | _ => false
+
+/-- **C18_capacity_blame.**
+(1) List builders (`List` / `LargeList`), the owners of an offsets vector: on a sequence (any of the three sequence
+calls) the list builder's OWN code — `callBody`, the body without its `.ctx(self)` — fails only with `offset overflow`,
+only when the last offset plus the number of elements really exceeds the offset type's maximum, and then the error is
+annotated with the list's own path and label (never with the child's, never with an ancestor's).  With
+`push_error_deepest` (every annotated error is the own failure of some builder of the subtree) this locates every offset
+overflow of a list at the list.
+(2) The flat owners of a capacity-limited counter — `Utf8` / `Binary` builders (data offsets), view builders (lengths
+and buffer offsets beyond `i32::MAX`), dictionary builders (the key type's range; the key conversion runs inside the
+dictionary's own `serialize_*`, un-annotated) — annotate EVERY error of a scalar call with their own path and label. -/
+theorem C18_capacity_blame (ext : Ext) [ExtPlain ext] :
+    (∀ (p : String) (large : Bool) (fm : FieldMeta) (v : Validity) (offs : List Int) (el : B) (xs : SVals) (x : SVal)
+      (msg : String), x = .seq xs ∨ x = .tuple xs ∨ (∃ nm, x = .tupleStruct nm xs) → WFB (.list p large fm v offs el) →
+      callBody ext (.list p large fm v offs el) (.val x) = .error (.err msg) →
+      msg = "offset overflow" ∧ ((dec el).length : Int) + xs.length > offMax large ∧
+      push ext (.list p large fm v offs el) x =
+        .error (.errCtx "offset overflow" [("data_type", if large then "LargeList" else "List"), ("field", p)])) ∧
+    (∀ (b : B) (x : SVal) (msg : String) (ann : List (String × String)), isFlatOwner b = true → isScalarCall x = true →
+      push ext b x = .error (.errCtx msg ann) → ann = [("data_type", b.label), ("field", b.path)]) := by
+  constructor
+  · intro p large fm v offs el xs x msg hx hw hbody
+    have hw' := hw
+    simp only [WFB] at hw'
+    have hlast := hw'.1.2.1
+    obtain ⟨v', hv'⟩ := setValidity_true_total v (offs.length - 1)
+    have key : ∀ k, seqLikeWith (fun large el offs => pushElems ext large el offs xs) (fun el c => pushCountElems ext el c xs)
+        (fun s => pushTupleElems ext s xs) (u8All xs) (.list p large fm v offs el) k = .error (.err msg) →
+        msg = "offset overflow" ∧ ((dec el).length : Int) + xs.length > offMax large := by
+      intro k hk
+      simp only [seqLikeWith, hv', duplicateLast_total hlast, bind, Except.bind] at hk
+      cases hpe : pushElems ext large el (offs ++ [((dec el).length : Int)]) xs with
+      | ok r => rw [hpe] at hk; cases hk
+      | error e =>
+        rw [hpe] at hk
+        simp only at hk
+        cases hk
+        exact pushElems_plain ext large xs el _ _ msg (by simp) (by omega) hpe
+    have hres : msg = "offset overflow" ∧ ((dec el).length : Int) + xs.length > offMax large := by
+      rcases hx with rfl | rfl | ⟨nm, rfl⟩
+      · exact key .seq (by simpa [callBody, valBody] using hbody)
+      · exact key .tuple (by simpa [callBody, valBody] using hbody)
+      · exact key .tupleStruct (by simpa [callBody, valBody] using hbody)
+    refine ⟨hres.1, hres.2, ?_⟩
+    obtain ⟨rfl, _⟩ := hres
+    have hne : ∀ v', x ≠ .some v' := by rcases hx with rfl | rfl | ⟨nm, rfl⟩ <;> (intro v' h; cases h)
+    have hnn : ∀ n' v', x ≠ .newtypeStruct n' v' := by rcases hx with rfl | rfl | ⟨nm, rfl⟩ <;> (intro n' v' h; cases h)
+    rw [own_failure_blames_self ext _ x _ hne hnn hbody]
+    rfl
+  · intro b x msg ann hb hx h
+    have hform : push ext b x = ctx b.ann (pushScalar ext b x) := by
+      cases x <;> simp [isScalarCall] at hx
+      case bytes bs => cases b <;> simp [isFlatOwner] at hb <;> (unfold push; rfl)
+      all_goals (unfold push; rfl)
+    rw [hform] at h
+    cases hr : pushScalar ext b x with
+    | ok r => rw [hr] at h; cases h
+    | error e =>
+      rw [hr] at h
+      cases e with
+      | err m => simp [SaModel.ctx, B.ann] at h; exact h.2.symm
+      | panic s => cases h
+      | errCtx m a => exact absurd hr ((pushScalar_noctx ext b x).out m a)
+
+/-- non-vacuity of (2), the dictionary key range: `Dictionary(Int8, Utf8)` holding 128 values refuses the 129th; the
+error is the dictionary's, `$.d` / `Dictionary(..)`, not the key builder's -/
+example :
+    push {} (.dictionary "$.d" (.leaf "$.d.key" (.int .i8) none []) (.bytes "$.d.value" .utf8 none [0] [])
+      ((List.range 128).map toString)) (.str "x") =
+    .error (.errCtx "out of range integral type conversion attempted" [("data_type", "Dictionary(..)"), ("field", "$.d")]) := by
+  decide +kernel
+
 /-! ### the cell where the two readings of `innermost` differ -/
 
 /-- **`dict_null_cell`**: `d: Dictionary(Int8, Utf8)`, not nullable, receives `None`.  `Spec.blameDT` blames the column
